@@ -4,3 +4,4 @@ pub mod big;
 pub mod dec;
 pub mod esr;
 pub mod mnemonic;
+pub mod resp;
